@@ -11,7 +11,9 @@ RULE = ("ALL lists of length 1..4 (quick) / 1..5 (thorough) made of cheap valid 
         "Non-trivial: a run containing at least one malformed row; distinct = distinct (input list, batch size, source form).")
 ASSUMPTIONS = ["oracle answers recorded from the real run (see C03)", "CSV/JSON readers and the str/dict conversion are maps (checked by running all four source forms)"]
 TRUSTED = ["pandas/csv/json readers as exercised"]
-VALID = ["C>>C", "CC(=O)C>>CC(O)C", "CCOC(C)=O.O>>CC(O)=O", "[CH3:1][OH:2]>>[CH3:1][OH:2]", "CC(=O)O.[OH-]>>CC(=O)[O-].O", "CCO>>CC=O", "CC>>CC"]
+VALID = ["C>>C", "CC(=O)C>>CC(O)C", "CCOC(C)=O.O>>CC(O)=O", "[CH3:1][OH:2]>>[CH3:1][OH:2]", "CC(=O)O.[OH-]>>CC(=O)[O-].O", "CCO>>CC=O", "CC>>CC",
+         # valid rows that a careless rewrite of the text can turn unparsable (neutral bracket atoms of Os, Sn, Co)
+         "O=[Os](=O)(=O)=O.C=C>>C=C.O=[Os](=O)(=O)=O", "C[Sn](C)(C)C>>C[Sn](C)(C)C", "Cl[Co]Cl>>Cl[Co]Cl"]
 MAL = {"unparsable": "XX>>C", "unparsable-product": "C>>C1CC", "no-separator": "C", "reagent-style": "CCO>CC>CCO", "two-separators": "C>>C>>C",
        "empty-string": "", "empty-side": "CC>>", "missing-value": None}
 
@@ -101,7 +103,11 @@ def run(ctx):
     # after the post-processing) and rows that stay open -- whatever a later pass writes back must find its own row
     BAL, EST, DM1, DM2, OP1, OP2, RED = ("CCO.CC(=O)O>>CC(=O)OCC.O", "CC(=O)OCC>>CC(=O)O", "COc1ccccc1>>Oc1ccccc1", "COc1ccc(C)cc1>>Oc1ccc(C)cc1",
                                          "CC>>CCCO", "CCN>>CCCN", "CC(=O)C>>CC(O)C")
-    mixes = [[BAL, EST, OP1], [RED, DM1, BAL, OP1, EST, DM2, OP2], [BAL, DM1], [OP1, BAL, EST], [RED, BAL, DM2, OP2]]
+    # one row for every reagent-template class of the post-processing (oxidations / reductions with the reagent missing)
+    OXS = ["OC1CCCCC1>>O=C1CCCCC1", "CCO>>CC=O", "CC=O>>CC(=O)O", "CCCO>>CCC(=O)O", "CC(=O)C>>CC(O)C", "CC=O>>CCO", "CC(=O)O>>CCO", "CC(=O)OC>>CCO"]
+    mixes = [[BAL, EST, OP1], [RED, DM1, BAL, OP1, EST, DM2, OP2], [BAL, DM1], [OP1, BAL, EST], [RED, BAL, DM2, OP2],
+             [BAL] + OXS[:4] + [OP1], OXS[4:] + [BAL], [OXS[0], BAL, RED],
+             [BAL, VALID[7], RED, VALID[8], VALID[9], "CC>>CC"], [VALID[8], BAL], [VALID[7]]]
     if not ctx.quick():
         for _ in range(12):
             m = [BAL, EST, DM1, DM2, OP1, OP2, RED]; rng.shuffle(m); mixes.append(m[:rng.randint(3, 7)])
